@@ -26,7 +26,7 @@ CREATE TABLE IF NOT EXISTS pipeline_executions (
     max_concurrent_executions INTEGER DEFAULT 0,
     keep_waiting_pipelines INTEGER DEFAULT 0,
     origin TEXT,
-    created_at TEXT DEFAULT (datetime('now', 'utc'))
+    created_at TEXT DEFAULT (datetime('now'))
 );
 
 CREATE TABLE IF NOT EXISTS stage_executions (
@@ -80,12 +80,12 @@ CREATE TABLE IF NOT EXISTS queue_messages (
     message_id TEXT NOT NULL UNIQUE,
     message_type TEXT NOT NULL,
     payload TEXT NOT NULL,
-    deliver_at TEXT NOT NULL DEFAULT (datetime('now', 'utc')),
+    deliver_at TEXT NOT NULL DEFAULT (datetime('now')),
     attempts INTEGER DEFAULT 0,
     max_attempts INTEGER DEFAULT 10,
     locked_until TEXT,
     version INTEGER DEFAULT 0,
-    created_at TEXT DEFAULT (datetime('now', 'utc'))
+    created_at TEXT DEFAULT (datetime('now'))
 );
 
 CREATE INDEX IF NOT EXISTS idx_execution_application
@@ -105,7 +105,7 @@ CREATE INDEX IF NOT EXISTS idx_queue_locked
 
 CREATE TABLE IF NOT EXISTS processed_messages (
     message_id TEXT PRIMARY KEY,
-    processed_at TEXT NOT NULL DEFAULT (datetime('now', 'utc')),
+    processed_at TEXT NOT NULL DEFAULT (datetime('now')),
     handler_type TEXT,
     execution_id TEXT
 );
@@ -116,7 +116,7 @@ CREATE TABLE IF NOT EXISTS stage_claims (
     execution_id TEXT NOT NULL,
     claim_key TEXT NOT NULL,
     stage_id TEXT NOT NULL,
-    claimed_at TEXT NOT NULL DEFAULT (datetime('now', 'utc')),
+    claimed_at TEXT NOT NULL DEFAULT (datetime('now')),
     PRIMARY KEY (execution_id, claim_key)
 );
 """
